@@ -511,6 +511,29 @@ class MNx(Model):
             stack.extend(reversed(list(g._succ[x])))
         return iter(out)
 
+    def weakly_connected_components(self, g):
+        seen = set()
+        for n in list(g._node):
+            if n in seen:
+                continue
+            comp, stack = set(), [n]
+            while stack:
+                x = stack.pop()
+                if x in comp:
+                    continue
+                comp.add(x)
+                stack.extend(y for y in list(g._succ[x]) + list(g._pred[x]) if y not in comp)
+            seen |= comp
+            yield comp
+
+    def number_weakly_connected_components(self, g):
+        return len(list(self.weakly_connected_components(g)))
+
+    def is_weakly_connected(self, g):
+        if not g._node:
+            raise ModelRaise("NetworkXPointlessConcept", "Connectivity is undefined for the null graph.")
+        return self.number_weakly_connected_components(g) == 1
+
     def find_cycle(self, g, source=None, orientation=None):
         """networkx.find_cycle: a cycle among the nodes reachable from `source` (a node, an iterable of nodes, or None =
         every node), as a list of edges; NetworkXNoCycle when there is none *there* - a cycle no source reaches is not found."""
